@@ -1,7 +1,9 @@
 import TTV.Model.Reactor
 import TTV.Generated.C15
 /-! Model of `Spinner.run` histories (C15): one reactor, one `Spinner` object, a list of steps
-`run scenario | clear_junk() | the process installs a signal handler`.
+`run scenario | clear_junk() | the process installs a signal handler | swap (use the other of two Spinner objects on the reactor)`.
+Deferreds may outlive their run (they fire after the timeout or after an interrupt): action `late` fires the Deferred of an earlier
+run during a later one; since the callbacks of a run are disarmed when it is over, that does nothing.
 
 A scenario is what the harness does around one `spinner.run(timeout, f)`:
 * `pre`: delayed calls scheduled *before* `run` is called (so they precede the spinner's timeout call in
@@ -23,6 +25,9 @@ inductive Act
   | addSel                      -- reactor.selectables.append(Sel(label))
   | setSig (s h : Nat)          -- signal.signal(SIGNALS[s], handler h)
   | reenter (fresh : Bool)      -- call Spinner.run from inside (same spinner / a fresh one on the same reactor)
+  | late (failed : Bool) (back v : Nat)
+                                -- fire (fail) the Deferred of the run `back` runs earlier - of this or the other Spinner - with v:
+                                -- the callbacks that run hung on it belong to a run that is over and do nothing
 deriving DecidableEq, Repr
 
 inductive Op | later (delay : Nat) (a : Act) | now (a : Act)
@@ -43,6 +48,7 @@ inductive Step
   | run (sc : Scen)
   | clearJunk
   | setSig (s h : Nat)          -- between two calls the process does `signal.signal(SIGNALS[s], handler h)`
+  | swap                        -- from now on the calls go to the other of two Spinner objects on the same reactor
 deriving Repr
 
 structure Input where
@@ -89,6 +95,7 @@ def exec (lbl : Nat) (a : Act) (w : W) : W :=
   | .addSel => { w with sels := w.sels ++ [lbl] }
   | .setSig s h => { w with sigs := w.sigs.set s h }
   | .reenter _ => { w with u := { w.u with reentries := w.u.reentries ++ [.reentry] } }   -- not_reentrant
+  | .late _ _ _ => w                                -- `during_this_run`: the run that installed the callbacks is over
 
 def schedPre : Nat → List (Nat × Act) → W → W
   | _, [], w => w
@@ -114,7 +121,7 @@ structure RunObs where
   elapsed : Nat                 -- virtual time consumed
 deriving Repr
 
-inductive Obs | run (o : RunObs) | cleared (junk : List Junk) | sigs (now : List Nat)
+inductive Obs | run (o : RunObs) | cleared (junk : List Junk) | sigs (now : List Nat) | swapped
 deriving Repr
 
 abbrev Trace := List Obs
@@ -179,13 +186,16 @@ def step (s : Step) (w : W) : W × Obs :=
   | .run sc => let (w, o) := runStep sc w; (w, .run o)
   | .clearJunk => ({ w with sp := { w.sp with junk := [] } }, .cleared w.sp.junk)
   | .setSig s h => let w := { w with sigs := w.sigs.set s h }; (w, .sigs w.sigs)
+  | .swap => (w, .swapped)      -- (the exchange of the two Spinner objects is done by `runSteps`)
 
-def runSteps : List Step → W → List Obs
-  | [], _ => []
-  | s :: rest, w => let (w', o) := step s w; o :: runSteps rest w'
+/-- `other`: the state of the Spinner object that is not in use; the reactor and the process are shared -/
+def runSteps : List Step → W → Spinner → List Obs
+  | [], _, _ => []
+  | .swap :: rest, w, other => .swapped :: runSteps rest { w with sp := other } w.sp
+  | s :: rest, w, other => let (w', o) := step s w; o :: runSteps rest w' other
 
 def init : W := { u := {} }
 
-def model (i : Input) : Trace := runSteps i.steps init
+def model (i : Input) : Trace := runSteps i.steps init {}
 
 end TTV.Spinner
